@@ -1,0 +1,11 @@
+//go:build verif
+
+package stream
+
+import "github.com/streamingfast/bstream"
+
+// VerifFileSourceOptions are appended to the options of the FileSourceFactory built by New
+// (verification harness only: small merged-blocks bundles).
+var VerifFileSourceOptions []bstream.FileSourceOption
+
+func verifFileSourceOptions() []bstream.FileSourceOption { return VerifFileSourceOptions }
